@@ -78,6 +78,9 @@ type LeftTask struct {
 	State   string // "blocked" | "runnable" | "sleeping" | "new"
 	Op      string
 	Site    string
+	// yields this task passed after the root task had returned (activity, as
+	// opposed to merely being alive)
+	YieldsAfterRoot int64
 }
 
 type Stats struct {
@@ -479,6 +482,9 @@ func (s *sched) end(reason string) {
 			continue
 		}
 		lt := LeftTask{Role: t.Role, Ordinal: t.Ordinal, Op: opNames[t.op], Site: t.opSite}
+		if s.res.RootDone {
+			lt.YieldsAfterRoot = t.used - t.usedAtRoot
+		}
 		switch t.st {
 		case stBlocked:
 			lt.State = "blocked"
@@ -521,6 +527,9 @@ func (s *sched) account(r *request) {
 		used = 0
 	}
 	s.passed += used
+	if r.t != nil {
+		r.t.used += used
+	}
 	s.given = r.left
 }
 
@@ -604,6 +613,9 @@ func (s *sched) loop() {
 				s.res.Stats.RootDoneAtT = simNow
 				s.res.Stats.RootDoneAtD = s.res.Stats.Decisions
 				s.res.Stats.LiveAtRootDn = s.live
+				for _, o := range s.tasks {
+					o.usedAtRoot = o.used
+				}
 			}
 		case rqPanic:
 			t.st = stDone
